@@ -50,6 +50,7 @@ type Op struct {
 	Widen bool  `json:"widen,omitempty"` // bw: what a controller that completes partial blocks itself would send (rehearsal of patch f13)
 	// cloneinfo / reload: while the call runs, a directory stands at <file>.tmp, so that the one metadata write
 	// that goes through that temp file fails ("volume": volume.meta, "head": the head's .meta); removed afterwards.
+	// "counter": the write of the revision counter block fails instead (descriptor swapped for a read-only one).
 	// A step that reports the failure is repeated without the obstacle when Retry is set, else the flow stops
 	// there (what sync.CloneReplica / reloadAndVerify do with an error: return it).
 	Obst  string `json:"obst,omitempty"`
@@ -511,7 +512,7 @@ func (r *runner) obstructed(op Op) error {
 		if op.FFail > len(ch) {
 			return fmt.Errorf("ffail: no member %d", op.FFail)
 		}
-		restore, n, err := breakFile(r.ddir, ch[op.FFail-1])
+		restore, n, err := breakFile(r.ddir, ch[op.FFail-1], "/dev/null", syscall.O_RDWR)
 		if err != nil || n == 0 {
 			panic(fmt.Sprintf("fault injection on %s: %v (%d descriptors)", ch[op.FFail-1], err, n))
 		}
@@ -519,6 +520,19 @@ func (r *runner) obstructed(op Op) error {
 		plain.FFail = 0
 		err = r.event(plain)
 		hx.QuiesceHoles()
+		restore()
+		return err
+	}
+	if op.Obst == "counter" {
+		// the write of the revision counter block fails (EBADF): the process's descriptors on revision.counter
+		// are swapped for read-only ones while the step runs
+		restore, n, err := breakFile(r.ddir, "revision.counter", filepath.Join(r.ddir, "revision.counter"), syscall.O_RDONLY)
+		if err != nil || n == 0 {
+			panic(fmt.Sprintf("fault injection on revision.counter: %v (%d descriptors)", err, n))
+		}
+		plain := op
+		plain.Obst = ""
+		err = r.event(plain)
 		restore()
 		return err
 	}
@@ -540,9 +554,10 @@ func (r *runner) obstructed(op Op) error {
 }
 
 // breakFile swaps every descriptor of this process that refers to the file dir/name (by inode: a snapshot
-// file is the former head under a new link) for a descriptor of /dev/null, on which FIEMAP fails; the returned
-// function swaps the originals back.  The descriptors are collected first: the listing opens descriptors itself.
-func breakFile(dir, name string) (func(), int, error) {
+// file is the former head under a new link) for a descriptor of `with` opened with `flags` (/dev/null: FIEMAP
+// fails; the file itself read-only: writes fail); the returned function swaps the originals back.  The
+// descriptors are collected first: the listing opens descriptors itself.
+func breakFile(dir, name, with string, flags int) (func(), int, error) {
 	ents, err := os.ReadDir("/proc/self/fd")
 	if err != nil {
 		return nil, 0, err
@@ -577,7 +592,7 @@ func breakFile(dir, name string) (func(), int, error) {
 			undo()
 			return nil, 0, err
 		}
-		bad, err := syscall.Open("/dev/null", syscall.O_RDWR, 0)
+		bad, err := syscall.Open(with, flags, 0)
 		if err != nil {
 			syscall.Close(saved)
 			undo()
